@@ -72,6 +72,7 @@ impl Serialize for Mpi {
     open spec fn wire(&self) -> Seq<u8> { mpi_wire(self.mv()) }
     open spec fn ser_inv(&self) -> bool { canonical(self.mv()) }
     open spec fn len_inv(&self) -> bool { true }
+    open spec fn wr_inv(&self) -> bool { true }
     #[verifier::external_body]
     fn to_writer<W: io::Write>(&self, writer: &mut W) -> (r: errors::Result<()>)
         ensures r is Ok ==> spec_bits(self.mv()) <= 16384
